@@ -73,6 +73,39 @@ def uint_set_replay(obs):
     return None
 
 
+def uint_codec_replay(which):
+    """Native witness search for the scalar codec helpers: the real uint_encode / uint_decode compiled and run on the spec AVM
+    against big-endian arithmetic, every width x boundary values x every combination of optional indices."""
+    from vf.core import use_repo
+    use_repo()
+    import itertools
+    import pyteal as pt
+    from pyteal.ast.abi.uint import uint_encode, uint_decode
+    from spec import avm
+    for size in (8, 16, 32, 64):
+        n = size // 8
+        for v in (0, 1, 2 ** (size - 1), 2 ** size - 1, 0x0102030405060708 % 2 ** size):
+            if which == "encode":
+                teal = pt.compileTeal(pt.Seq(pt.Log(uint_encode(size, pt.Int(v))), pt.Approve()), pt.Mode.Application, version=6)
+                r = avm.run(teal, avm.Ctx())
+                if r.verdict != "approve" or list(r.logs) != [v.to_bytes(n, "big")]:
+                    return {"input": {"size": size, "value": v}, "problems": [f"uint_encode(size={size}, Int({v})) gives {r.verdict} {[bytes(x).hex() for x in r.logs]}, expected {v.to_bytes(n, 'big').hex()}"], "teal": teal}
+            else:
+                for pad, (hs, he, hl) in itertools.product((0, 3), itertools.product((False, True), repeat=3)):
+                    if pad and not hs:
+                        continue
+                    buf = b"\xaa" * pad + v.to_bytes(n, "big") + (b"\xbb" * 2 if hs else b"")
+                    var = pt.ScratchVar(pt.TealType.uint64)
+                    e = uint_decode(size, var, pt.Bytes(buf), pt.Int(pad) if hs else None, pt.Int(pad + n) if he else None, pt.Int(n) if hl else None)
+                    teal = pt.compileTeal(pt.Seq(e, pt.Log(pt.Itob(var.load())), pt.Approve()), pt.Mode.Application, version=6)
+                    r = avm.run(teal, avm.Ctx())
+                    # without a start index the helper reads at 0; with only end/length given the caller passes a buffer that starts at the value
+                    if r.verdict != "approve" or list(r.logs) != [v.to_bytes(8, "big")]:
+                        return {"input": {"size": size, "value": v, "buffer": buf.hex(), "start/end/length given": [hs, he, hl]},
+                                "problems": [f"uint_decode(size={size}) of {buf.hex()} gives {r.verdict} {[bytes(x).hex() for x in r.logs]}, expected {v}"], "teal": teal}
+    return None
+
+
 def run(report: Report, tier, seed):
     report.trust("algosdk.abi (reference codec: type strings, is_dynamic, byte_len, encode)", "spec/avm.py",
                  "spec arc4 position function in contracts/c06_layout.py (independent, element-by-element walk)")
@@ -83,7 +116,8 @@ def run(report: Report, tier, seed):
                            ("contracts.c06_layout", "BoolAwareStaticByteLength", "O6.15"),
                            ("contracts.c06_encode", "EncodeTuple", "O6.16"),
                            ("contracts.c06_uint", "UintSetInt", "O6.17"),
-                           ("contracts.c06_uint", "UintSetExpr", "O6.18")])
+                           ("contracts.c06_uint", "UintSetExpr", "O6.18"),
+                           ("contracts.c06_uint", "UintEncode", "O6.19")])
     jobs = jobs_for(tier, seed)
     res = A.pool_map(A.encode_case, jobs)
     bad = [r for r in res if r["problems"]]
@@ -121,6 +155,8 @@ def run(report: Report, tier, seed):
     report.sample({"shape": jobs[40][0], "what": "assembled with set() from parts, Log(encode()) compared with algosdk"})
     report.extra["explanation"] = "P: layout arithmetic (pyvc); B: Expr layer against algosdk on generated shapes/values"
     def search(fn, obs):
+        if fn.endswith("uint.uint_encode"):
+            return uint_codec_replay("encode")
         if fn.endswith("uint.uint_set"):
             return uint_set_replay(obs) or ((rbad[0] if rbad else None) and {"input": {"uint_range": rbad[0].get("shape")}, "problems": rbad[0]["problems"][:2]})
         return (bad[0] if bad else None) and {"input": {"shape": bad[0]["shape"], "seed": bad[0]["seed"], "version": bad[0]["version"], "in_sub": bad[0]["in_sub"]}, "problems": bad[0]["problems"][:2]}
